@@ -93,7 +93,7 @@ def run(case):
         return "extra trace records after the last step: %r" % (TR[pos:pos + 3],)
     return None
 
-case = {'start': 1, 'stop': 1, 'n': 2, 'agents': 5, 'collect': False, 'mode': 'run', 'kills': [((1, 1, 2), 1)]}
+case = {'start': 0, 'stop': 1, 'n': 10, 'agents': 3, 'collect': True, 'mode': 'run', 'kills': [((1, 8, 2), 1)]}
 bad = run(case)
 print("case:", case)
 print("FAIL: " + bad if bad else "PASS")
